@@ -157,7 +157,7 @@ def havoc_point_imul(record):
 
 
 @ob("C02/Arc.__imul__/contract", funcs=["Arc.__imul__", "Matrix.determinant", "Point.__init__"],
-    props=["C02", "C06"], uses=["C02/Point.__imul__/maps_in_place"])
+    props=["C02", "C06", "C19"], uses=["C02/Point.__imul__/maps_in_place"])
 def _(E):
     """for ANY matrix and any arc: start/end/center are the images returned by Point.__imul__; the stored radius
     points describe exactly the ellipse of the mapped pair (a rotation of the parameter: P = U'c0 + V's0,
